@@ -173,6 +173,20 @@ for _s in SKELETONS:
     _mk_roundtrip(_s)
 
 
+@obligation("C13", "scenario-id.roundtrip.cooperative.every-country", functions=F, max_paths={"quick": 3000, "thorough": 3000},
+            bounds="cooperative ids with configuration, every country code of the table")
+def roundtrip_countries(V):
+    warnings.filterwarnings("ignore")
+    cs = countries()
+    f = dict(cooperative=True, country=cs[V.choice("country", len(cs))], map_name=V.string("map_name", ALNUM if V.symbolic else None),
+             map_id=V.int("map_id", 1), config=V.int("config", 1), behavior=None, pred=None)
+    x = make_id(f)
+    printed = str(x)
+    y = parse_back(V, f, printed)
+    V.prove("parsed id equals the original", V.And(bool(y == x), bool(x == y)))
+    V.prove("parsed id prints identically", str(y) == printed)
+
+
 def _mk_unambiguous(s1, s2):
     @obligation("C13", f"scenario-id.unambiguous.{s1}.{s2}", functions=F,
                 bounds=f"two ids with skeletons '{s1}' / '{s2}' that print identically have identical fields (word equation)")
